@@ -664,7 +664,15 @@ def rule_heading(rep: Report, repo: Repo, rule: str) -> None:
         for o in _eval(repo, cname, bfn):
             for nid, ob in o.state.heap.items():
                 if ob.get("kind") == "new" and ob.get("cls") == "Heading":
-                    a = ob.get("args", [])
+                    a = list(ob.get("args", []))
+                    kw = ob.get("kwargs", {}) or {}
+                    if kw:
+                        # bind by the constructor's parameter names
+                        init = repo.find_method("Heading", "__init__")
+                        names = func_params(init[1])[1:] if init else []
+                        for nm in names[len(a):]:
+                            if nm in kw:
+                                a.append(kw[nm])
                     okb = len(a) == 2 and a[0][0] == "attr" and a[0][1] == SELF and "title" in a[0][2] \
                         and a[1] == attr(SELF, "header_char")
                     rep.check(okb, rule, f"{MOD}:{cname}.build_heading", f"Heading({', '.join(show(x) for x in a)})",
